@@ -103,6 +103,10 @@ def corpus():
     # contents vector shorter / longer than sources
     r.append(line("rw.run", ["a", "b", "c"], [], None, ["A"], None, None, [(0, i, 0, 0, 2 - i, NONE, 0) for i in range(3)], [], 1, 1, []))
     r.append(line("rw.run", ["a"], [], None, ["A", "B", "C"], None, None, [(0, 0, 0, 0, 0, NONE, 0)], [], 1, 1, []))
+    # more sources than a byte can index, every one referenced (in reverse order) and every one with contents: the
+    # builder's own ids run past 255 too
+    r.append(line("rw.run", ["s%d" % i for i in range(300)], [], None, ["C%d" % i for i in range(300)], None, None,
+                  [(0, i, 0, 0, 299 - i, NONE, 0) for i in range(300)], [], 1, 1, []))
     # empty map
     r.append(line("rw.run", [], [], None, None, None, None, [], [], 1, 1, []))
     r.append(line("rw.run", ["a"], ["n"], "", [None], "", None, [], [], 0, 0, ["a"]))
